@@ -82,6 +82,7 @@ type op struct {
 	rel    []relOpt
 	hint   []uint64
 	res    *result // nil: the operation was abandoned by a crash
+	first  bool    // scripted relaff/claim: aim at the first block of this host's block order
 }
 type relOpt struct {
 	addr uint32
@@ -358,7 +359,11 @@ func (w *world) genOp() *op {
 	case k >= 30:
 		return &op{kind: "claim", addr: w.cfg.base + uint32(blk*w.cfg.bsize)}
 	case k >= 22:
-		return &op{kind: "relaff", addr: w.cfg.base + uint32(blk*w.cfg.bsize), must: r.chance(50)}
+		must := r.chance(50)
+		if len(w.alloc) > 0 {
+			must = r.chance(25) // a block that holds addresses: mostly the release that clears the Affinity field
+		}
+		return &op{kind: "relaff", addr: w.cfg.base + uint32(blk*w.cfg.bsize), must: must}
 	case k >= 19:
 		return &op{kind: "relhost", must: r.chance(50)}
 	case k < 8:
@@ -415,6 +420,7 @@ func (w *world) genOp() *op {
 type schedEntry struct {
 	client, steps int // let `client` perform up to `steps` accesses
 	fault         mb.Decision
+	untilDone     int // if > 0: instead of counting, let `client` run until it has completed this many operations
 }
 type script struct {
 	name  string
@@ -434,7 +440,17 @@ var scripts = []*script{
 	// confirms: two hosts have a confirmed affinity for the same block.
 	{name: "same-host-release-races-claim", hosts: []int{0, 0, 1},
 		ops: [][]*op{{{kind: "claim", addr: base0}, {kind: "claim", addr: base0}}, {{kind: "relaff", addr: base0, must: true}}, {{kind: "claim", addr: base0}}},
-		sched: []schedEntry{{0, 3, mb.Proceed}, {1, 3, mb.Proceed}, {0, 6, mb.Proceed}, {1, 1000, mb.Proceed}, {2, 1000, mb.Proceed}, {0, 1000, mb.Proceed}}},
+		sched: []schedEntry{{0, 3, mb.Proceed, 0}, {1, 3, mb.Proceed, 0}, {0, 6, mb.Proceed, 0}, {1, 1000, mb.Proceed, 0}, {2, 1000, mb.Proceed, 0}, {0, 1000, mb.Proceed, 0}}},
+	// A left-over affinity row for a block that names nobody: n0 claims a block through AutoAssign and takes an
+	// address; its ReleaseAffinity(mustBeEmpty=false) of that non-empty block reads affinity and block, marks the
+	// affinity pendingDeletion, writes the block with Affinity = nil and dies before it deletes the affinity row; the
+	// restarted process runs AutoAssign: getBlockFromAffinity must treat the row as stale (block Affinity is nil) and
+	// delete it, NOT confirm it.  Then the address is released (the un-affine block is deleted) and n1 claims the
+	// block: with a re-confirmed stale row this ends with two confirmed owners.
+	{name: "stale-row-for-unaffine-block", hosts: []int{0, 1},
+		ops: [][]*op{{{kind: "aa", h: 1, tag: 1, num: 1}, {kind: "relaff", first: true, must: false}, {kind: "aa", h: 2, tag: 1, num: 1},
+			{kind: "rbh", h: 1}, {kind: "rbh", h: 2}}, {{kind: "claim", first: true}}},
+		sched: []schedEntry{{0, 0, mb.Proceed, 1}, {0, 4, mb.Proceed, 0}, {0, 1, mb.CrashBefore, 0}, {0, 1000, mb.Proceed, 0}, {1, 1000, mb.Proceed, 0}}},
 }
 
 func runCase(seed uint64, conc bool, sc *script) (string, bool, string, map[string]any, []string) {
@@ -555,6 +571,10 @@ func runCase(seed uint64, conc bool, sc *script) (string, bool, string, map[stri
 				o := w.genOp()
 				if sc != nil {
 					o = sc.ops[cs.id][k]
+					if o.first {
+						// the block this host's randomBlockGenerator visits first (the one its first AutoAssign claims)
+						o.addr = cfg.base + uint32(cfg.starts[sc.hosts[0]]*cfg.bsize)
+					}
 				}
 				cs.ops = append(cs.ops, o)
 				curOp[cs.id] = k
@@ -673,6 +693,14 @@ func runCase(seed uint64, conc bool, sc *script) (string, bool, string, map[stri
 						isPending = true
 					}
 				}
+				if e.untilDone > 0 {
+					if !isPending || len(clients[e.client].results) >= e.untilDone {
+						scPos++
+						continue
+					}
+					id, scriptFault = e.client, e.fault
+					break
+				}
 				if e.steps <= 0 || !isPending {
 					scPos++
 					continue
@@ -696,7 +724,9 @@ func runCase(seed uint64, conc bool, sc *script) (string, bool, string, map[stri
 		} else if (call.Op == "update" || call.Op == "delete") && r.chance(pConflict) {
 			dec = mb.Conflict
 			conflicts++
-		} else if crashy && crashes < maxCrashes && isWrite && r.chance(8) {
+		} else if _, affKey := call.Key.(model.BlockAffinityKey); crashy && crashes < maxCrashes && isWrite &&
+			(r.chance(8) || (affKey && call.Op == "delete" && r.chance(30))) {
+			// (more often just before an affinity row is deleted: the row survives the release)
 			if r.chance(50) {
 				dec = mb.CrashBefore
 			} else {
